@@ -506,6 +506,80 @@ func ndShape(b *ndBehaviour, upto int) string {
 	return fmt.Sprintf("%s,prunes>0=%v,last=%s", s, prunes > 0, b.Steps[min(upto, len(b.Steps)-1)].Op.A)
 }
 
+// ndAncestors returns the keys of the roots the given root was derived from (transitively, through the recorded parents).
+func ndAncestors(b *ndBehaviour, upto int, root ndRootID) map[string]bool {
+	out := map[string]bool{}
+	cur := root
+	for hops := 0; hops < 32; hops++ {
+		var op *ndOp
+		for i := 0; i <= upto && i < len(b.Steps); i++ {
+			o := &b.Steps[i].Op
+			if o.A == "commit" && o.V == cur.V && o.Ty == cur.Ty && bytes.Equal(mustJSON(o.C), mustJSON(cur.C)) {
+				op = o
+				break
+			}
+		}
+		if op == nil || op.Parent == "empty" {
+			break
+		}
+		pv := op.V
+		if op.Parent == "prev" {
+			pv = op.V - 1
+		}
+		cur = ndRootID{pv, op.Ty, op.PC}
+		out[cur.key()] = true
+	}
+	return out
+}
+
+// ndSharesKVFor reports whether the given (unreadable) root holds a key/value pair that also occurs in a root that was
+// discarded or pruned at or before step i, or in a root of the other type - not counting the roots it was derived from:
+// what a root inherits from its own ancestors is protected by the derived-root links of the legacy backend, the recorded
+// hash-keyed-node finding is about nodes that an UNRELATED root wrote or removed under the same hash.
+func ndSharesKVFor(b *ndBehaviour, i int, root ndRootID) bool {
+	anc := ndAncestors(b, i, root)
+	anc[root.key()] = true
+	seen := map[string]ndRootID{}
+	gone := map[string]bool{}
+	for j := 0; j <= i && j < len(b.Steps); j++ {
+		e := &b.Steps[j].Expect
+		cur := map[string]bool{}
+		for _, lst := range [][]ndRootID{e.Finalized, e.Pending} {
+			for _, id := range lst {
+				seen[id.key()] = id
+				cur[id.key()] = true
+			}
+		}
+		for k := range seen {
+			if !cur[k] {
+				gone[k] = true
+			}
+		}
+	}
+	mine := map[string]bool{}
+	for _, p := range root.C {
+		mine[string(p[0])+"="+string(p[1])] = true
+	}
+	for k, id := range seen {
+		if anc[k] || !(gone[k] || id.Ty != root.Ty) {
+			continue
+		}
+		for _, p := range id.C {
+			if mine[string(p[0])+"="+string(p[1])] {
+				return true
+			}
+		}
+	}
+	return false
+}
+
+func ndSharedFor(b *ndBehaviour, i int, f *ndFail) bool {
+	if f.Root != nil {
+		return ndSharesKVFor(b, i, *f.Root)
+	}
+	return ndSharesKV(b, i)
+}
+
 // ndSharesKV reports whether some retained root at step i holds a key/value pair that also occurs in a root that
 // was discarded by a finalization or pruned at or before step i (the legacy backend keys nodes by hash only).
 func ndSharesKV(b *ndBehaviour, i int) bool {
@@ -579,7 +653,7 @@ func ndRunBehaviour(b *ndBehaviour, backend, dir string, noisy bool, reuse ...bo
 			f = &ndFail{Kind: "panic", Msg: perr.Error()}
 		}
 		if f != nil {
-			return &ndMismatch{Backend: backend, Step: i, Fail: f, Steps: b.Steps[:i+1], Shape: ndShape(b, i), SharedKV: ndSharesKV(b, i), Origin: ndOrigin(b, i, f.Root)}, n
+			return &ndMismatch{Backend: backend, Step: i, Fail: f, Steps: b.Steps[:i+1], Shape: ndShape(b, i), SharedKV: ndSharedFor(b, i, f), Origin: ndOrigin(b, i, f.Root)}, n
 		}
 	}
 	return nil, n
